@@ -140,13 +140,15 @@ def left_calls(a: Analysis, exp: Stub, index: dict[str, int]) -> list[int]:
     return list(it.call_fn(fn, [exp, index]))
 
 
-def rule_left_call_table(a: Analysis, rule_id: str) -> RuleReport:
+def rule_left_call_table(a: Analysis, rule_id: str, thorough: bool = False) -> RuleReport:
     rep = RuleReport(
         rule_id,
         'left-call table: pegen._callable_rule_ids (with _is_nullable_safe), interpreted on stand-in expression trees, returns '
         'exactly the rules that can be called at the position where the expression starts: calls preceded only by elements '
         'able to match empty (optional, closure, lookaheads, void, cut, constants, empty-matching patterns, nullable groups), '
-        'through groups/named/options, and nothing behind a token, a positive closure of a token or another rule call',
+        'through groups/named/options, and nothing behind a token, a positive closure of a token or another rule call; a hand-written '
+        'table plus every expression term of depth <= 2 over token / call a / call b, the five wrappers and binary sequence / choice '
+        '(quick: every 7th term) against an oracle computed by the checker',
         floor=20,
     )
     b = B(a)
@@ -180,13 +182,77 @@ def rule_left_call_table(a: Analysis, rule_id: str) -> RuleReport:
         ("{a}", b.box('Closure', A()), [0]),
     ]
     fn = a.p.func('tatsu.peg.leftrec.pegen._callable_rule_ids')
+    # every expression term of depth <= 2 over {token, call a, call b} x {optional, closure, positive closure, group, lookahead}
+    # x {sequence of 2, choice of 2}, against an oracle written from the property (calls are not "able to match empty":
+    # the property excludes nullable rule calls in a prefix)
+    atoms = [('t',), ('a',), ('b',)]
+    unary = ['Optional', 'Closure', 'PositiveClosure', 'Group', 'Lookahead']
+    lvl1 = atoms + [(u, x) for u in unary for x in atoms] + [(k, x, y) for k in ('seq', 'alt') for x in atoms for y in atoms]
+    lvl2 = [(u, x) for u in unary for x in lvl1 if len(x) > 1] + [(k, x, y) for k in ('seq', 'alt') for x in lvl1 for y in lvl1
+                                                                  if len(x) > 1 or len(y) > 1]
+
+    strict_rules = {n: b.box('Rule', T(), name=n) for n in ('a', 'b')}
+
+    def t_null(t) -> bool:
+        k = t[0]
+        if k in ('t', 'a', 'b'):
+            return False
+        if k in ('Optional', 'Closure', 'Lookahead'):
+            return True
+        if k in ('PositiveClosure', 'Group'):
+            return t_null(t[1])
+        if k == 'seq':
+            return t_null(t[1]) and t_null(t[2])
+        return t_null(t[1]) or t_null(t[2])
+
+    def t_first(t) -> set:
+        k = t[0]
+        if k == 't':
+            return set()
+        if k in ('a', 'b'):
+            return {idx[k]}
+        if k in unary:
+            return t_first(t[1])
+        if k == 'seq':
+            return t_first(t[1]) | (t_first(t[2]) if t_null(t[1]) else set())
+        return t_first(t[1]) | t_first(t[2])
+
+    def t_build(t):
+        k = t[0]
+        if k == 't':
+            return T()
+        if k in ('a', 'b'):
+            return b.call(k, strict_rules)  # the called rules never match empty (the property's quantifier)
+        if k in unary:
+            inner = t_build(t[1])
+            return b.box(k, b.seq(inner) if k == 'Group' and t[1][0] not in ('seq', 'alt') else inner)
+        if k == 'seq':
+            return b.seq(t_build(t[1]), t_build(t[2]))
+        return b.choice(t_build(t[1]) if t[1][0] == 'seq' else b.seq(t_build(t[1])), t_build(t[2]) if t[2][0] == 'seq' else b.seq(t_build(t[2])))
+
+    def t_text(t) -> str:
+        k = t[0]
+        if k == 't':
+            return "'t'"
+        if k in ('a', 'b'):
+            return k
+        if k in unary:
+            x = t_text(t[1])
+            return {'Optional': f'[{x}]', 'Closure': f'{{{x}}}', 'PositiveClosure': f'{{{x}}}+', 'Group': f'({x})', 'Lookahead': f'&({x})'}[k]
+        return f'{t_text(t[1])} {t_text(t[2])}' if k == 'seq' else f'({t_text(t[1])} | {t_text(t[2])})'
+
+    if thorough:
+        terms = lvl2
+    else:
+        terms = lvl2[::7]  # quick: every 7th term of the enumeration (the thorough tier takes all)
+    cases = cases + [(t_text(t), t_build(t), sorted(t_first(t))) for t in terms]
     for what, exp, want in cases:
         try:
             got = left_calls(a, exp, idx)
         except Unsupported as e:
             raise AnalysisError(f'cannot interpret _callable_rule_ids on `{what}`: {e}') from e
         rep.add({'expression': what, 'left_calls': got, 'table': want})
-        if sorted(got) != sorted(want):
+        if sorted(set(got)) != sorted(set(want)):
             names = {0: 'a', 1: 'b'}
             rep.fail(fn.qualname, f'left-calls:{what}',
                      f'for `{what}` the analysis finds the left calls {[names[i] for i in got]}, the rules callable at the start '
